@@ -54,6 +54,13 @@ fn fail(sig: &str, msg: String) -> i32 {
 }
 
 pub fn child(seed: u64) -> i32 {
+    // every exit path (also the failing ones) leaves no socket directory behind in the temp dir
+    let rc = child_inner(seed);
+    let _ = std::fs::remove_dir_all(std::env::temp_dir().join(format!("verif-c10-{}-{}", std::process::id(), seed)));
+    rc
+}
+
+fn child_inner(seed: u64) -> i32 {
     let transport = seed % 3;
     let aggressive = seed / 3 % 2 == 1;
     let with_prefix = seed / 6 % 2 == 1;
